@@ -186,3 +186,64 @@ func TestVgC08SM2SignK(t *testing.T) {
 	vgL2_GenerateKey_stream_tainted(append(bytes.Repeat([]byte{0xff}, 32), vgKey(192)...))
 	vgNote("scenario L2_GenerateKey_stream_tainted 2")
 }
+
+//go:noinline
+func vgL2_Sign_d_tainted(id, px, py, priv, msg, stream []byte) {
+	utils.VgPoison(priv)
+	r, s, err := Sign(id, px, py, &taintedReader{data: stream}, priv, msg)
+	utils.VgUnpoison(priv)
+	utils.VgUnpoison(r)
+	utils.VgUnpoison(s)
+	if err != nil {
+		vgSink++
+	}
+	vgSink += len(r) + len(s)
+}
+
+//go:noinline
+func vgL2_SignZa_k_tainted(priv, za, msg, stream []byte) {
+	r, s, err := SignZa(&taintedReader{data: stream, taint: true}, priv, za, msg)
+	utils.VgUnpoison(r)
+	utils.VgUnpoison(s)
+	if err != nil {
+		vgSink++
+	}
+	vgSink += len(r) + len(s)
+}
+
+//go:noinline
+func vgL2_SignHashed_short_key_d_tainted(priv, e, stream []byte) {
+	utils.VgPoison(priv)
+	r, s, err := SignHashed(&taintedReader{data: stream}, priv, e)
+	utils.VgUnpoison(priv)
+	utils.VgUnpoison(r)
+	utils.VgUnpoison(s)
+	if err != nil {
+		vgSink++
+	}
+	vgSink += len(r) + len(s)
+}
+
+func TestVgC08SM2Wrappers(t *testing.T) {
+	if !utils.VgRunning() {
+		t.Skip("not under valgrind")
+	}
+	vgSink += utils.VgControls()
+	priv := vgKey(250)
+	x, y, err := DerivePublic(priv)
+	if err != nil {
+		t.Fatal(err)
+	}
+	vgL2_Sign_d_tainted([]byte("1234567812345678"), x, y, append([]byte{}, priv...), vgBytes(251, 77), append(vgKey(252), vgKey(253)...))
+	vgNote("scenario L2_Sign_d_tainted 1")
+	vgL2_SignZa_k_tainted(append([]byte{}, priv...), vgBytes(254, 32), vgBytes(255, 10), append(vgKey(256), vgKey(257)...))
+	// two rejected candidates (>= n) first
+	vgL2_SignZa_k_tainted(append([]byte{}, priv...), vgBytes(258, 32), vgBytes(259, 64), append(append(bytes.Repeat([]byte{0xff}, 64), vgKey(260)...), vgKey(261)...))
+	vgNote("scenario L2_SignZa_k_tainted 2")
+	short := vgKey(262)[1:] // 31-byte encoding of a valid key
+	vgL2_SignHashed_short_key_d_tainted(short, vgBytes(263, 32), append(vgKey(264), vgKey(265)...))
+	vgNote("scenario L2_SignHashed_short_key_d_tainted 1")
+	// key generation after three rejected candidates
+	vgL2_GenerateKey_stream_tainted(append(append(bytes.Repeat([]byte{0xff}, 96), vgKey(266)...), vgKey(267)...))
+	vgNote("scenario L2_GenerateKey_stream_tainted 1")
+}
